@@ -121,7 +121,7 @@ def _format_edge(edge, indent, column, vars):
         column += len(role) + 1  # +1 for :
 
     sep = ' '
-    if not target:
+    if target is None or target == '':
         target = sep = ''
     elif not is_atomic(target):
         target = _format_node(target, indent, column, vars)
